@@ -480,6 +480,13 @@ class WsgiApplication(HttpBase):
             except StopIteration:
                 # the generator did not yield anything
                 p_ctx.out_object = ( iter(()), )
+            except Exception as e:
+                # the user code raised before its first yield
+                logger.exception(e)
+                p_ctx.out_error = self.__fault_from_exception(e)
+                p_ctx.fire_event('method_exception_object')
+                return self.handle_error(p_ctx, others, p_ctx.out_error,
+                                                                 start_response)
             else:
                 p_ctx.out_object = ( chain((first_obj,), g), )
 
@@ -491,10 +498,13 @@ class WsgiApplication(HttpBase):
 
         except Exception as e:
             logger.exception(e)
-            p_ctx.out_error = Fault('Server', get_fault_string_from_exception(e))
+            p_ctx.out_error = self.__fault_from_exception(e)
             p_ctx.fire_event('method_exception_object')
             # the status was optimistically set to 200 above
             p_ctx.transport.resp_code = None
+            # a half-built response document must not go out instead of the fault
+            p_ctx.out_document = None
+            p_ctx.out_string = None
             return self.handle_error(p_ctx, others, p_ctx.out_error,
                                                                  start_response)
 
@@ -550,6 +560,15 @@ class WsgiApplication(HttpBase):
             logger.exception(e)
 
         return retval
+
+    @staticmethod
+    def __fault_from_exception(e):
+        """A Fault raised late (by a generator body, during serialization) is
+        still the user's fault; anything else becomes the generic one."""
+
+        if isinstance(e, Fault):
+            return e
+        return Fault('Server', get_fault_string_from_exception(e))
 
     def __finalize(self, p_ctx):
         p_ctx.close()
